@@ -31,7 +31,7 @@ from .common import blit, lst, natlit, zlit
 
 HEADER = """From Coq Require Import List ZArith NArith Bool Arith.
 Import ListNotations.
-From LV Require Import Base.ListAux Goose.Epoch Goose.Keys Goose.CorrC10.
+From LV Require Import Base.ListAux Goose.Epoch Goose.Keys Goose.Builder Goose.CorrC10.
 Close Scope Z_scope.
 Open Scope nat_scope.
 """
@@ -45,7 +45,7 @@ DIAG: dict = {}        # case id -> diagnostic text from Coq
 # ------------------------------------------------------------------------------------------------
 def base_cfg(**kw):
     c = dict(seed_kind="int", seed=1, nch=2, nker=1, nqg=0, sched=[[0, 1, 1], [4, 2, 1]], via="builder",
-             chunk=None, jit=None, init_mode="replicate", init=[[3, 4]])
+             chunk=None, jit=None, init_mode="replicate", init=[[3, 4]], eseed=None, builds=1, pre_init=None)
     c.update(kw)
     return c
 
@@ -84,6 +84,16 @@ def corpus():
     out.append(("seed_maxint+thinning", base_cfg(seed=2 ** 31 - 1, nch=2, nker=3, nqg=1,
                 sched=[[0, 1, 1], [1, 4, 4], [4, 4, 2]], jit=["p2", "p0"], init_mode="per_chain",
                 init=[[0, 9972, 1, 2], [9972, 0, 2, 1]])))
+    # 11: build() called twice on one builder with jitter functions set: the second engine is run
+    out.append(("build_twice+jitter", base_cfg(seed=42, nch=2, nker=2, nqg=1, sched=[[0, 1, 1], [3, 2, 1], [4, 2, 1]],
+                jit=["p1", "x"], init_mode="per_chain", init=[[100, 200, 300], [400, 500, 600]], builds=2)))
+    # 12: set_engine_seed with an integer (pair: the corresponding PRNG key)
+    out.append(("set_engine_seed_int", base_cfg(seed=7, nch=3, nker=2, nqg=1, sched=[[0, 1, 1], [1, 2, 1], [4, 2, 1]],
+                jit=["x", "p0"], init_mode="per_chain", init=[[5, 6, 7], [15, 16, 17], [25, 26, 27]],
+                eseed=["int", 99])))
+    # 13: builder reuse: other initial values are set and built first, then the real ones (replicated)
+    out.append(("builder_reuse", base_cfg(seed=9, nch=2, nker=1, nqg=0, sched=[[0, 1, 1], [4, 2, 1]], jit=["p0"],
+                init=[[70, 80]], pre_init={"mode": "per_chain", "init": [[1, 2], [3, 4]]})))
     return out
 
 
@@ -124,8 +134,18 @@ def rand_cfg(rnd, i):
     else:
         sk, seed = "key", [rnd.randint(0, 2 ** 32 - 1), rnd.randint(0, 2 ** 32 - 1)]
     cfg = base_cfg(seed_kind=sk, seed=seed, nch=nch, nker=nk, nqg=nq, sched=sched, jit=jit, init_mode=mode, init=init)
+    r = rnd.random()
+    if r < 0.2:
+        cfg["builds"] = 2
+    elif r < 0.4:
+        cfg["eseed"] = rnd.choice([["int", rnd.randint(0, 10 ** 6)], ["ctor"],
+                                   ["key", [rnd.randint(0, 2 ** 32 - 1), rnd.randint(0, 2 ** 32 - 1)]]])
+    elif r < 0.5:
+        pm = rnd.choice(["replicate", "per_chain"])
+        cfg["pre_init"] = {"mode": pm, "init": [[rnd.randint(0, 9972) for _ in names]
+                                                for _ in range(1 if pm == "replicate" else nch)]}
     if rnd.random() < 0.2 and len(sched) > 1:
-        cfg.update(via="engine", jit=None, init_mode="per_chain",
+        cfg.update(via="engine", jit=None, init_mode="per_chain", builds=1, pre_init=None,
                    init=[[rnd.randint(0, 9972) for _ in names] for _ in range(nch)])
         import math
         g = math.gcd(*[e[1] for e in sched[1:]])
@@ -137,6 +157,12 @@ def stratum(cfg):
     parts = [cfg["via"], cfg["init_mode"], "seed:" + cfg["seed_kind"],
              "jitter:" + ("none" if cfg["jit"] is None else ("empty" if not cfg["jit"] else
                           ("all" if len(cfg["jit"]) == cfg["nker"] + 1 else "subset")))]
+    if cfg.get("eseed"):
+        parts.append("set_engine_seed:" + cfg["eseed"][0])
+    if cfg.get("builds", 1) > 1:
+        parts.append("build() twice" + ("+jitter" if cfg["jit"] else ""))
+    if cfg.get("pre_init"):
+        parts.append("builder reuse after set_initial_values+build")
     return parts
 
 
@@ -241,35 +267,49 @@ def compare_runs(cfg_a, obs_a, cfg_b, obs_b, chains=None):
     return None
 
 
+KINDS = ["rerun", "seed_equiv", "perturb", "replicate_equiv", "build_twice", "eseed_equiv", "eseed_ctor", "reuse"]
+
+
 def pair_variants(cfg, i, rnd):
-    """metamorphic partners of a configuration: (kind, partner cfg, chains to compare)"""
+    """metamorphic partner of a configuration: [(kind, partner cfg, chains to compare)]; kind number i is
+    taken if it applies to the configuration, otherwise the next one that does"""
     from . import c10_kit as kit
-    out = []
-    kinds = ["rerun", "seed_equiv", "perturb", "replicate_equiv"]
+    bld = cfg["via"] == "builder"
+    es = cfg.get("eseed")
     ok = {"rerun": True, "seed_equiv": cfg["seed_kind"] == "int", "perturb": cfg["nch"] >= 2,
-          "replicate_equiv": cfg["init_mode"] == "replicate" and cfg["via"] == "builder"}
-    kind = next(kinds[(i + d) % 4] for d in range(4) if ok[kinds[(i + d) % 4]]) if i % 4 else "rerun"
-    if kind == "rerun":
-        out.append(("rerun", copy.deepcopy(cfg), None))
-    elif kind == "seed_equiv" and cfg["seed_kind"] == "int":
-        p = copy.deepcopy(cfg)
+          "replicate_equiv": cfg["init_mode"] == "replicate" and bld,
+          "build_twice": bld,
+          "eseed_equiv": bld and es is not None and es[0] == "int",
+          "eseed_ctor": bld and es is None,
+          "reuse": bld}
+    n = len(KINDS)
+    kind = next(KINDS[(i + d) % n] for d in range(n) if ok[KINDS[(i + d) % n]]) if i % n else "rerun"
+    p = copy.deepcopy(cfg)
+    chains = None
+    if kind == "seed_equiv":
         p["seed_kind"], p["seed"] = "key", kit.root_key(cfg)
-        out.append(("seed_equiv", p, None))
-    elif kind == "perturb" and cfg["nch"] >= 2:
-        p = copy.deepcopy(cfg)
+    elif kind == "perturb":
         if p["init_mode"] == "replicate":
             p["init_mode"], p["init"] = "per_chain", [list(cfg["init"][0]) for _ in range(cfg["nch"])]
         j = rnd.randrange(cfg["nch"])
         p["init"][j] = [v + 1000 + 7 * k for k, v in enumerate(p["init"][j])]
         p["perturbed_chain"] = j
-        out.append(("perturb", p, [c for c in range(cfg["nch"]) if c != j]))
-    elif kind == "replicate_equiv" and cfg["init_mode"] == "replicate" and cfg["via"] == "builder":
-        p = copy.deepcopy(cfg)
+        chains = [c for c in range(cfg["nch"]) if c != j]
+    elif kind == "replicate_equiv":
         p["init_mode"], p["init"] = "per_chain", [list(cfg["init"][0]) for _ in range(cfg["nch"])]
-        out.append(("replicate_equiv", p, None))
-    if not out:
-        out.append(("rerun", copy.deepcopy(cfg), None))
-    return out
+    elif kind == "build_twice":
+        p["builds"] = 2 if cfg.get("builds", 1) == 1 else 1
+    elif kind == "eseed_equiv":
+        p["eseed"] = ["key", kit.engine_root_key(cfg)]
+    elif kind == "eseed_ctor":
+        p["eseed"] = ["ctor"]
+    elif kind == "reuse" and cfg.get("pre_init"):
+        p["pre_init"] = None
+    elif kind == "reuse":
+        names = kit.pos_names(cfg)
+        p["pre_init"] = {"mode": "per_chain", "init": [[(17 * c + 3 * k + 1) % 9973 for k in range(len(names))]
+                                                       for c in range(cfg["nch"])]}
+    return [(kind, p, chains)]
 
 
 PAIR_TEXT = {
@@ -277,6 +317,11 @@ PAIR_TEXT = {
     "seed_equiv": "the run with the integer seed and the run with jax.random.PRNGKey(seed) differ: ",
     "perturb": "perturbing the initial value of chain %s changed another chain: ",
     "replicate_equiv": "one replicated state and the same state supplied per chain give different runs: ",
+    "build_twice": "the engine of a second build() on the same builder differs from the engine of the first build(): ",
+    "eseed_equiv": "set_engine_seed(int) and set_engine_seed(jax.random.PRNGKey(int)) give different runs: ",
+    "eseed_ctor": "handing the builder's own engine_seed back through set_engine_seed changes the run: ",
+    "reuse": "a builder on which other initial values were set and built before gives a different engine for the "
+             "same final initial values: ",
     "process_rerun": "the same configuration run in a fresh interpreter process (PYTHONHASHSEED=%s) differs: ",
 }
 
@@ -326,14 +371,15 @@ def generate(ctx):
     common.log(f"C10 generate starts at {time.time() - ctx.t0:.0f}s")
     rnd = random.Random(ctx.seed)
     cases = []
-    n_rand = 4 if ctx.quick else 60
+    n_rand = 3 if ctx.quick else 60
     n_pairs_rand = 1 if ctx.quick else 30
     todo = [(nm, cfg) for nm, cfg in corpus()] + [("random%03d" % i, rand_cfg(rnd, i)) for i in range(n_rand)]
     from . import c10_kit as kit0
     pname, pcfg0 = corpus()[PROCESS_CFG_INDEX]
     procs = [(hs, kit0.spawn_run(pcfg0, hs)) for hs in (HASHSEEDS_QUICK if ctx.quick else HASHSEEDS_THOROUGH)]
     process_base = None
-    pair_for = {0: 0, 2: 3, 9: 2, 3: 1}        # corpus index -> pair kind index (rerun, replicate_equiv, perturb, seed_equiv)
+    # corpus index -> partner kinds (indices into KINDS)
+    pair_for = {0: [0, 1, 2, 6], 2: [3], 9: [2], 3: [1], 10: [4], 11: [5], 12: [7]}
     for idx, (nm, cfg) in enumerate(todo):
         cid = len(cases)
         case = make_case(ctx, cid, nm, cfg)
@@ -342,11 +388,16 @@ def generate(ctx):
             process_base = case
         kinds = []
         if idx in pair_for:
-            kinds = [pair_for[idx]]
-            if idx == 0:
-                kinds = [0, 1, 2]      # the F2 configuration: rerun, seed equivalence and perturbation
+            kinds = pair_for[idx]
         elif idx >= len(corpus()) and (idx - len(corpus())) < n_pairs_rand * 2 and idx % 2 == 0:
-            kinds = [1 + (idx // 2) % 3 if (idx // 2) % 5 else 0]      # rotate the partner kinds, every 5th a rerun
+            kinds = [1 + (idx // 2) % 7 if (idx // 2) % 9 else 0]      # rotate the partner kinds, every 9th a rerun
+            # the builder strata get their own partner
+            if cfg["via"] == "builder" and (cfg.get("eseed") or [None])[0] == "int":
+                kinds = [KINDS.index("eseed_equiv")]
+            elif cfg["via"] == "builder" and cfg.get("builds", 1) > 1:
+                kinds = [KINDS.index("build_twice")]
+            elif cfg["via"] == "builder" and cfg.get("pre_init"):
+                kinds = [KINDS.index("reuse")]
         if case["error"] is not None:
             kinds = []
         for k in kinds:
@@ -374,7 +425,9 @@ def generate(ctx):
         if not obs["error"]:
             from . import c10_kit as kit
             ncalls += len(kit.observed_calls(c["cfg"], obs))
-        distinct.add(json.dumps([c["cfg"][k] for k in ("nch", "nker", "nqg", "sched", "via", "chunk", "jit", "init_mode")]))
+        distinct.add(json.dumps([c["cfg"].get(k) for k in ("nch", "nker", "nqg", "sched", "via", "chunk", "jit", "init_mode",
+                                                           "builds")] + [(c["cfg"].get("eseed") or [None])[0],
+                                                                         bool(c["cfg"].get("pre_init"))]))
     ctx.count(ncalls + len(cases), len(distinct))
     ctx.hist("observed key-consuming calls", ncalls)
     ctx.cov["rule"] = ("distinct non-trivial cases = engine runs with pairwise different (chains, kernels, generators, "
@@ -398,7 +451,7 @@ def generate(ctx):
         "concrete distinctness of threefry keys derived along distinct paths (checked on all observed keys of every run)",
         "jitter keys / quantity-generator keys are observed through stored values only (thinned-out quantities are "
         "declared unobservable in the shard)",
-        "EngineBuilder.set_engine_seed (replaces the engine key after construction) is not modelled",
+        "hand-made multi-chain engine keys (set_engine_seed with an array of shape (chains, 2)) are not modelled",
     ]
     ctx.extra_tb = ["oracle: threefry (jax.random.split / PRNGKey) - the concrete key of a path and the numbers the "
                     "harness kernels compute from it are supplied per case by the harness",
@@ -437,7 +490,7 @@ def decode_table(cfg):
     root = kit.root_key(cfg)
     tab = {}
     for lab, path in uses:
-        tab[tuple(ek.derive_key(root, path))] = (lab, path)
+        tab[tuple(kit.concrete_key(cfg, path))] = (lab, path)
     return uses, tab
 
 
@@ -465,8 +518,9 @@ def k_case(cfg, obs):
                 hidden = (m == kit.MQ and thin > 1 and t % thin != 0) or (m == kit.MI and obs["logs"] is None)
                 if hidden:
                     ulist.append("(mkO %s %s %s %s %s 0%%N)" % (nat(c), nat(m), nat(i), nat(e), nat(t)))
-    return "(mkCC %s %s %s %s %s %s %s %s %s)" % (nat(cfg["nch"]), jit_lit(cfg), nat(cfg["nker"]), nat(cfg["nqg"]),
-                                                 nat(chunk), sched_lit(cfg["sched"]), blit(raised), lst(olist), lst(ulist))
+    return "(mkCC %s %s %s %s %s %s %s %s %s %s)" % (nat(cfg["nch"]), jit_lit(cfg), nat(cfg["nker"]), nat(cfg["nqg"]),
+                                                    nat(chunk), blit(kit.overridden(cfg)), sched_lit(cfg["sched"]),
+                                                    blit(raised), lst(olist), lst(ulist))
 
 
 def s_case(cfg, obs):
@@ -482,24 +536,46 @@ def s_case(cfg, obs):
         root = kit.root_key(cfg)
         for lab, path in ev[0]:
             if lab[1] == kit.MT:
-                tbl.append("(%s, %s%%Z)" % (nlit(kit.encode(path)), zlit(kit.d_trans(ek.derive_key(root, path)))))
+                tbl.append("(%s, %s%%Z)" % (nlit(kit.encode(path)), zlit(kit.d_trans(kit.concrete_key(cfg, path)))))
             elif lab[1] == kit.MJ:
-                tbl.append("(%s, %s%%Z)" % (nlit(kit.encode(path)), zlit(kit.d_jit(ek.derive_key(root, path)))))
+                tbl.append("(%s, %s%%Z)" % (nlit(kit.encode(path)), zlit(kit.d_jit(kit.concrete_key(cfg, path)))))
 
     def zl(vs):
         return "[" + "; ".join(zlit(v) for v in vs) + "]%Z"
 
-    if cfg["init_mode"] == "replicate":
-        init = "(Replicate %s)" % zl(cfg["init"][0])
+    def init_lit(mode, rows):
+        if mode == "replicate":
+            return "(Replicate %s)" % zl(rows[0])
+        return "(PerChain %s)" % lst(zl(r) for r in rows)
+
+    # the builder calls of run_config, in its order
+    ops = []
+    es = cfg.get("eseed")
+    if es is not None:
+        if es[0] == "int":
+            ops.append("(BSetEngineSeed (IntSeed 1%Z))")
+        elif es[0] == "key":
+            ops.append("(BSetEngineSeed (KeySeed (tagkey 1%Z)))")
+        else:
+            ops.append("(BSetEngineSeed (KeySeed (b_engine [])))")
+    if cfg["via"] == "builder":
+        if cfg["jit"] is not None:
+            ops.append("(BSetJitter %s)" % jit_lit(cfg))
+        pre = cfg.get("pre_init")
+        if pre is not None:
+            ops += ["(BSetInit %s)" % init_lit(pre["mode"], pre["init"]), "BBuild"]
+        ops.append("(BSetInit %s)" % init_lit(cfg["init_mode"], cfg["init"]))
+        ops += ["BBuild"] * int(cfg.get("builds", 1))
     else:
-        init = "(PerChain %s)" % lst(zl(r) for r in cfg["init"])
+        # public Engine constructor: seeds = split(builder.engine_seed, chains), the states as given
+        ops += ["(BSetInit %s)" % init_lit(cfg["init_mode"], cfg["init"]), "BBuild"]
     stored = []
     if not raised:
         for seq in kit.stored_values(cfg, obs):
             stored.append(lst("(%s, %s, %s)" % (nat(e), nat(t), zl(v)) for e, t, v in seq))
-    return "(mkSC %s %s %s %s %s %s %s %s %s %s %s)" % (
-        nat(cfg["nch"]), jit_lit(cfg), lst(nat(t) for t in tgt), nat(cfg["nker"]), nat(cfg["nqg"]), nat(chunk),
-        sched_lit(cfg["sched"]), lst(tbl), init, blit(raised), lst(stored))
+    return "(mkSC %s %s %s %s %s %s %s %s %s %s)" % (
+        nat(cfg["nch"]), lst(nat(t) for t in tgt), nat(cfg["nker"]), nat(cfg["nqg"]), nat(chunk),
+        sched_lit(cfg["sched"]), lst(tbl), lst(ops), blit(raised), lst(stored))
 
 
 def emit(ctx, cases):
@@ -523,7 +599,7 @@ Definition kcases : list ccase := {lst(krows)}.
 Definition scases : list scase := {lst(srows)}.
 Lemma shard_ok_keys : forallb agrees kcases = true.
 Proof. vm_compute. reflexivity. Qed.
-Lemma shard_ok_states : forallb (s_agrees SivRepaired) scases = true.
+Lemma shard_ok_states : forallb (s_agrees SivRepaired BuildPure) scases = true.
 Proof. vm_compute. reflexivity. Qed.
 """
         p = ctx.new_shard(txt)
@@ -536,16 +612,17 @@ Proof. vm_compute. reflexivity. Qed.
 def diagnose(ctx, path, idxs, cases):
     txt = open(path).read().split("Lemma shard_ok_keys")[0]
     txt += ("Eval vm_compute in (failing agrees kcases).\n"
-            "Eval vm_compute in (failing (s_agrees SivRepaired) scases).\n"
-            "Eval vm_compute in (failing (s_agrees SivAsFound) scases).\n")
+            "Eval vm_compute in (failing (s_agrees SivRepaired BuildPure) scases).\n"
+            "Eval vm_compute in (failing (s_agrees SivAsFound BuildPure) scases).\n"
+            "Eval vm_compute in (failing (s_agrees SivRepaired BuildWritesJitter) scases).\n")
     ok, out = ctx.coq_eval(txt)
     blocks = out.split(" : list nat")
     lists = []
-    for b in blocks[:3]:
+    for b in blocks[:4]:
         lists.append(common.parse_nat_list(b + " : list nat"))
-    while len(lists) < 3:
+    while len(lists) < 4:
         lists.append([])
-    kbad, sbad, sfound_bad = lists
+    kbad, sbad, sfound_bad, swrites_bad = lists
     kidx = SIDE[("kidx", path)]
     bad = set()
     for j in kbad:
@@ -558,14 +635,16 @@ def diagnose(ctx, path, idxs, cases):
             note = "states: the stored trajectory (or the raise) is not the one of the model engine"
             if j not in sfound_bad:
                 note += "; it IS the behaviour of set_initial_values as found before the repair 317d8ca (defect F2)"
+            elif j not in swrites_bad:
+                note += "; it IS the behaviour of a build() that stores the jittered states back into the builder"
             DIAG.setdefault(idxs[j], []).append(note)
     # detail for the first key-flow disagreement
     if kbad and not DIAG.get("detail_done"):
         DIAG["detail_done"] = True
         j = kbad[0]
         t2 = open(path).read().split("Lemma shard_ok_keys")[0]
-        t2 += f"Eval vm_compute in (firstn 5 (mismatches (nth {j} kcases (mkCC 0 None 0 0 0 [] false [] [])))).\n"
-        t2 += f"Eval vm_compute in (firstn 5 (missing (nth {j} kcases (mkCC 0 None 0 0 0 [] false [] [])))).\n"
+        t2 += f"Eval vm_compute in (firstn 5 (mismatches (nth {j} kcases (mkCC 0 None 0 0 0 false [] false [] [])))).\n"
+        t2 += f"Eval vm_compute in (firstn 5 (missing (nth {j} kcases (mkCC 0 None 0 0 0 false [] false [] [])))).\n"
         ok2, out2 = ctx.coq_eval(t2)
         DIAG.setdefault(kidx[j] if j < len(kidx) else -1, []).append(
             "first mismatches (chain, method, index, epoch, time, observed path code, model path code) / model calls "
@@ -598,7 +677,7 @@ def key_detail(case):
         if path is None:
             return {"call": [kit.METH_NAME[lab[1]]] + list(lab), "observed_key": list(kw), "seen_in": where,
                     "model": "the model has no such call"}
-        want = ek.derive_key(root, path)
+        want = kit.concrete_key(case["cfg"], path)
         if list(kw) != want:
             hit = tab.get(tuple(kw))
             return {"call": [kit.METH_NAME[lab[1]]] + list(lab), "observed_key": list(kw), "seen_in": where,
@@ -621,7 +700,7 @@ def search(ctx, disagreeing):
         if case["error"] is not None:
             continue
         base_obs = SIDE[case["id"]]
-        for k in range(4):
+        for k in range(len(KINDS)):
             for (kind, pcfg, chains) in pair_variants(case["cfg"], k, rnd):
                 pub = {a: b for a, b in pcfg.items() if a != "perturbed_chain"}
                 obs = kit.run_config(pub)
@@ -692,9 +771,9 @@ def replay(rp) -> int:
         root = kit.root_key(cfg)
         for lab, kw, where in kit.observed_calls(cfg, obs):
             path = by_label.get(lab)
-            if path is None or ek.derive_key(root, path) != list(kw):
+            if path is None or kit.concrete_key(cfg, path) != list(kw):
                 res = (f"correspondence: the {kit.METH_NAME[lab[1]]} call {describe(lab)} received key {list(kw)}; "
-                       f"the model's path gives {ek.derive_key(root, path) if path else 'no such call'}")
+                       f"the model's path gives {kit.concrete_key(cfg, path) if path else 'no such call'}")
                 break
     if res:
         print("REPLAY FAILS:", res)
